@@ -5,3 +5,4 @@ import Rp2.Props.C09
 #print axioms Rp2.C09.stable_sort_commutes_with_filter
 #print axioms Rp2.C09.model_to_date_run_equals_truncated_run
 #print axioms Rp2.C09.schedule_entries_after_the_to_date_are_irrelevant
+#print axioms Rp2.C09.source_iterator_is_window
